@@ -287,7 +287,20 @@ func SetWKT(m protoreflect.Message, variant int) bool {
 		return true
 	case isWKT(md, "Empty"):
 		return true
-	case isWKT(md, "Struct"), isWKT(md, "Value"), isWKT(md, "ListValue"), isWKT(md, "Any"):
+	case isWKT(md, "Value"):
+		// a Value without a kind is not a value (the reference encoder refuses it): always pick one
+		switch variant % 4 {
+		case 0:
+			m.Set(f.ByName("string_value"), protoreflect.ValueOfString("val-"+itoa(variant)))
+		case 1:
+			m.Set(f.ByName("number_value"), protoreflect.ValueOfFloat64(2.5))
+		case 2:
+			m.Set(f.ByName("bool_value"), protoreflect.ValueOfBool(true))
+		default:
+			m.Set(f.ByName("null_value"), protoreflect.ValueOfEnum(0))
+		}
+		return true
+	case isWKT(md, "Struct"), isWKT(md, "ListValue"), isWKT(md, "Any"):
 		return true // left empty (valid)
 	}
 	return false
@@ -453,6 +466,27 @@ func (g *Gen) FieldClasses(md protoreflect.MessageDescriptor, fd protoreflect.Fi
 			m1 := mk()
 			m1.Mutable(fd).List().Append(g.nonDefault(fd, 0))
 			out = append(out, LMsg{"list-one", m1})
+		}
+	case isMsg && isWKT(fd.Message(), "Value"):
+		// google.protobuf.Value: unset, and one class per kind incl. an EXPLICIT null (set, and not the same as unset)
+		out = append(out, LMsg{"msg-unset", mk()})
+		for v, label := range []string{"value-string", "value-number", "value-bool", "value-explicit-null"} {
+			m := mk()
+			SetWKT(m.Mutable(fd).Message(), v)
+			out = append(out, LMsg{label, m})
+		}
+		{
+			m := mk()
+			vm := m.Mutable(fd).Message()
+			st := vm.Mutable(vm.Descriptor().Fields().ByName("struct_value")).Message()
+			e := st.Mutable(st.Descriptor().Fields().ByName("fields")).Map()
+			inner := e.NewValue()
+			SetWKT(inner.Message(), 0)
+			e.Set(protoreflect.ValueOfString("k").MapKey(), inner)
+			nul := e.NewValue()
+			SetWKT(nul.Message(), 3)
+			e.Set(protoreflect.ValueOfString("nothing").MapKey(), nul)
+			out = append(out, LMsg{"value-struct", m})
 		}
 	case isMsg:
 		out = append(out, LMsg{"msg-unset", mk()})
